@@ -862,7 +862,12 @@ pub fn round_trip(text: &str) -> RoundTrip {
                 match p1.to_quil() {
                     Err(e) => Some(("second serialization".to_string(), json!("Ok"), json!(e.to_string()))),
                     Ok(t2) if t2 != t1 => Some(("second serialization is byte-identical".to_string(), json!(t1), json!(t2))),
-                    Ok(_) => None,
+                    // a table kept in a hash map lists its entries in an order that varies from one Program value to
+                    // the next: parse and print a few more times (each parse builds fresh tables)
+                    Ok(_) => (0..6).find_map(|k| match Program::from_str(&t1).ok().and_then(|q| q.to_quil().ok()) {
+                        Some(tk) if tk == t1 => None,
+                        other => Some((format!("second serialization is byte-identical (repetition {k})"), json!(t1), json!(other))),
+                    }),
                 }
             }
         }
@@ -947,6 +952,8 @@ pub const CORPUS: &[&str] = &[
     "DEFCAL X 0:\n    PULSE 0 \"rf\" flat(duration: 1e-7, iq: 1)", "DEFCAL RX(%theta) q:\n    SHIFT-PHASE q \"rf\" -%theta/2\n    NOP",
     "DEFCAL RX(pi/2) 0:\n\tFENCE 0\n\tNOP", "DEFCAL CONTROLLED X 0 1:\n    NOP", "DEFCAL DAGGER CONTROLLED RX(%t) q 1:\n    DELAY q 1.0",
     "DEFCAL MEASURE 0 addr:\n    CAPTURE 0 \"ro\" flat(duration: 1e-6, iq: 1) addr", "DEFCAL MEASURE q:\n    NOP", "DEFCAL MEASURE!fast q dest:\n    RAW-CAPTURE q \"ro\" 1e-6 dest",
+    "DEFFRAME 0 \"a\":\n    DIRECTION: \"tx\"\nDEFFRAME 0 \"b\":\n    DIRECTION: \"rx\"\nDEFFRAME 1 \"a\":\n    DIRECTION: \"tx\"\nDEFFRAME 0 1 \"cz\":\n    DIRECTION: \"tx\"\nDEFFRAME 2 \"c\":\n    SAMPLE-RATE: 1e9",
+    "DECLARE a BIT\nDECLARE b REAL[2]\nDECLARE c INTEGER\nDECLARE d OCTET\nDEFWAVEFORM w1:\n    1\nDEFWAVEFORM w2:\n    2\nDEFWAVEFORM w3:\n    3\nDEFGATE A AS PERMUTATION:\n    0, 1\nDEFGATE B AS PERMUTATION:\n    1, 0\nDEFGATE C AS PERMUTATION:\n    0, 1",
     "# a comment", "X 0 # trailing comment", "X 0; Y 1", "X 0;;\n\n\nY 1",
 ];
 
